@@ -178,12 +178,22 @@ inductive PoolRes where
   | accepted | blocked | other
   deriving Repr, DecidableEq
 
-/-- mempool `checkTxs`/`checkTx` for a transaction or group whose members all reach the blacklist check
-(`reach`: signature, fee and address checks passed); `base` = the answer with an empty blacklist.
-The pool looks at the submitted (outer) transactions only. -/
-def poolSubmit (set : List Raw) (ts : List TxV) (reach : Bool) (base : PoolRes) : PoolRes :=
+/-- mempool `checkTxs`: the members are checked one after the other, each first for its recipient address
+(`addrOk` = `address.CheckAddress(tx.To)` passes), then against the blacklist; `none` = every member passed. -/
+def poolMembers (set : List Raw) : List (TxV × Bool) → Option PoolRes
+  | [] => none
+  | (t, addrOk) :: rest =>
+    if !addrOk then some .other
+    else if (core set t).isSome then some .blocked
+    else poolMembers set rest
+
+/-- mempool answer for a transaction or group; `reach`: the checks on the whole submission (signature, fee, size)
+passed; `base` = the answer with an empty blacklist. The pool looks at the submitted (outer) transactions only. -/
+def poolSubmit (set : List Raw) (ts : List (TxV × Bool)) (reach : Bool) (base : PoolRes) : PoolRes :=
   if !reach then base
-  else if ts.any (fun t => (core set t).isSome) then .blocked else base
+  else match poolMembers set ts with
+    | some r => r
+    | none => base
 
 /-- `eventAddDelayTx` / `addDelayTx`: is the delayed transaction cached. -/
 def delayTakes (set : List Raw) (t : TxV) : Bool := !(core set t).isSome
